@@ -55,6 +55,23 @@ Definition schema_args_ok (S : schema) : bool :=
   && fields_args_ok S (s_meta S)
   && forallb (fun nd => args_ok S (dd_args (snd nd))) (s_directives S).
 
+(** Schema.InterfaceImplementations agrees with the interfaces the object types declare, and type
+    names are the keys of a map *)
+Definition impls_of (S : schema) (n : name) : list name :=
+  match assoc n (s_impls S) with Some l => l | None => [] end.
+Definition schema_impls_ok (S : schema) : bool :=
+  nodupb (map fst (s_types S)) &&
+  forallb (fun nt => match t_body (snd nt) with
+                     | TInterface _ =>
+                         forallb (fun x => match raw_body S x with Some (TObject _ ifs) => mem (fst nt) ifs | _ => false end)
+                                 (impls_of S (fst nt))
+                         && forallb (fun nt' => match t_body (snd nt') with
+                                                | TObject _ ifs => if mem (fst nt) ifs then mem (fst nt') (impls_of S (fst nt)) else true
+                                                | _ => true
+                                                end) (s_types S)
+                     | _ => true
+                     end) (s_types S).
+
 (** every field selection of the document has a definition (5.3.1 holds and every selection set has
     a known parent type) *)
 Definition fields_defined (S : schema) (F : features) (D : document) : bool :=
